@@ -1585,7 +1585,9 @@ fn finish_program(p: &Pipeline, src: &Src, steps: &[Step], dir: &str, file: &mut
         (Some((f, pr)), Coll::U(c)) => {
             let r = c.try_map(move |x: &Val| {
                 perturb();
-                if pf(&pr, x) { Ok(ef(&f, x)) } else { Err(format!("e{}", val_json(x))) }
+                // the user error carries the element between markers, so that the element can be
+                // recovered from the collector's error whatever wording surrounds it
+                if pf(&pr, x) { Ok(ef(&f, x)) } else { Err(format!("e<<{}>>", val_json(x))) }
             });
             if fail_fast {
                 match r.collect_fail_fast() {
@@ -1593,7 +1595,8 @@ fn finish_program(p: &Pipeline, src: &Src, steps: &[Step], dir: &str, file: &mut
                     Err(e) => {
                         // "element failed: e<json of the element>": report WHICH element failed
                         let m = format!("{e:#}");
-                        match m.split_once("element failed: e").and_then(|(_, j)| serde_json::from_str::<Value>(j).ok()) {
+                        let marked = m.split_once("e<<").and_then(|(_, r)| r.split_once(">>")).map(|(j, _)| j.to_string());
+                        match marked.and_then(|j| serde_json::from_str::<Value>(&j).ok()) {
                             Some(el) => json!(["err", "fail_fast", el]),
                             None => rows_json::<Val>(Err(e)),
                         }
